@@ -184,7 +184,7 @@ impl Doc for debian_control::lossy::ftpmaster::Removal {
 }
 
 impl Doc for debian_control::lossy::buildinfo::Buildinfo {
-    const UNORDERED: bool = true;
+    const UNORDERED: bool = true;   // a hash container inside: the `ord` probe
     const READER: u8 = 1;
     fn parse(s: &str) -> Result<Self, String> {
         Self::from_str(s)
@@ -326,7 +326,8 @@ fn run<T: Doc>(text: &str) -> String {
         Err(e) => return format!("p={}|ll={}", err_class(T::READER, text, &e), ll),
     };
     let body = catch_unwind(AssertUnwindSafe(|| {
-        let un = T::UNORDERED;
+        let un = false;   // the tree prints hash containers sorted: records hold the real text
+        let has_ord = T::UNORDERED;
         let p1 = v.paras();
         let t1 = v.print();
         let mut out = format!("p=OK|v={}|t={}", dump(&p1, un), text_s(&p1, un, &t1));
@@ -347,7 +348,7 @@ fn run<T: Doc>(text: &str) -> String {
                 out.push_str(&format!("|r=OK|v2={}|eq={}|t2={}|same={}", dump(&p2, un), b(eq), text_s(&p2, un, &t2), b(same)));
             }
         }
-        if un {
+        if has_ord {
             // is the printed order a function of the value?  read the same text repeatedly
             let mut all = true;
             for _ in 0..24 {
